@@ -148,6 +148,16 @@ impl Property for C03 {
             let pk = key.lib().to_public_key().map_err(|e| failure("to_public_key", e.to_string(), "Ok"))?;
             ensure_eq_hex!(pk.to_bytes().map_err(|e| failure("pubkey_bytes", e.to_string(), "Ok"))?, key.pub_bytes(), "public_key_bytes");
             ensure_eq!(lib_call("Transaction::verify", || tx2.verify(&pk, &sig))?, true, "transaction_verify_own_signature");
+            // caller-supplied nonce: r = (kG).x mod n and the signature verifies over the same digest
+            let k = keys::Key { d: keys::Scalar::Pow2 { k: (c.value % 250) as u8 + 2, delta: 1 }, compressed: true };
+            let mut tx3 = parse_fresh(&r)?;
+            let sigk = lib_call("sign_with_k", || tx3.sign_with_k(&key.lib(), &k.lib(), sh, idx, &script, c.value))?.map_err(|e| failure("sign_with_k", format!("Err({})", e), "Ok"))?;
+            let bk = sigk.to_bytes().map_err(|e| failure("sighash_signature_to_bytes", e.to_string(), "Ok"))?;
+            let (rk, sk2) = codec::der_decode_sig(&bk[..bk.len() - 1]).ok_or_else(|| failure("signature_der", hex::encode(&bk), "strict DER of (r, s)"))?;
+            let wantk = secp::sign_with_k(&key.d.value(), &z, &k.d.value(), true).ok_or_else(|| failure("harness_self_check", "reference nonce gives r or s = 0", "valid"))?;
+            if (rk.clone(), sk2.clone()) != (wantk.r.clone(), wantk.s.clone()) {
+                return Err(failure("sign_with_k_equals_reference", format!("r={:x} s={:x}", rk, sk2), format!("r={:x} s={:x} (nonce {:x} over sha256d of the specified preimage)", wantk.r, wantk.s, k.d.value())));
+            }
         }
         Ok(o)
     }
